@@ -80,6 +80,16 @@ def presentedAll {α : Type} (a : Arr α) : List (Nat × α) := (List.range a.ra
 def copy {α : Type} (a : Arr α) : Arr α :=
   { len := a.len, ranks := a.ranks, dv := a.dv, vecs := a.vecs.map (fun v => v) }
 
+/-- `resize(size, fill_value)` (barrier; new block sizes and start index; `m_local_vec.resize(new local
+size, fill_value)`; barrier): `std::vector::resize` keeps the old LOCAL prefix of every rank — the values
+stay at their local positions, whatever global index those positions now have — and appends copies of
+`fill_value`.  `resize(size)` is `resize(size, m_default_value)`. -/
+def resize {α : Type} (a : Arr α) (newLen : Nat) (fill : α) : Arr α :=
+  { len := newLen, ranks := a.ranks, dv := a.dv,
+    vecs := (List.range a.ranks).map (fun r =>
+      ((a.vecs.getD r []).take (localSize newLen a.ranks r)) ++
+        List.replicate (localSize newLen a.ranks r - (a.vecs.getD r []).length) fill) }
+
 /-- invariant established by `resize`: one vector per rank, of the rank's block size -/
 def WF {α : Type} (a : Arr α) : Prop :=
   a.vecs.length = a.ranks ∧ ∀ r, r < a.ranks → (a.vecs[r]?).map List.length = some (localSize a.len a.ranks r)
